@@ -493,3 +493,30 @@ MANIFEST = {
     "technique": "Lean 4 proof over hand-written transfer programs + exhaustive small-shape differential correspondence with an instrumented element type (ASan/UBSan harness)",
     "design_ref": "DESIGN.md §5 C05",
 }
+
+
+def _diff_batches(harness, tier="quick", seed=1):
+    """Diagnostic (used for the mutation tables of notes/C05.md): feed every batch to a given harness binary (e.g. the one the runner
+    built for a mutated tree, newest entry of .cache/harness/) and to the Lean driver and print, per batch, the number of differing
+    lines and the first one.  `python3 -m props.c05 <harness binary> [tier]`"""
+    import subprocess
+    from vlib.rng import Rng
+    driver = os.path.join(paths.ROOT, "lean", ".lake", "build", "bin", "driver")
+    total = 0
+    for b in batches(Rng(seed), tier):
+        if not b.ops:
+            continue
+        inp = "\n".join(b.ops) + "\n"
+        impl = subprocess.run([harness], input=inp, capture_output=True, text=True).stdout.split("\n")
+        model = subprocess.run([driver, ID], input=inp, capture_output=True, text=True).stdout.split("\n")
+        d = [(o, x, y) for o, x, y in zip(b.ops, impl, model) if x != y and not equivalent(o, x, y)]
+        total += len(b.ops)
+        if d:
+            o, x, y = d[0]
+            print(f"{b.name}: {len(d)} differing line(s); first: {o}\n    impl : {x}\n    model: {y}")
+    print("ops", total)
+
+
+if __name__ == "__main__":
+    import sys
+    _diff_batches(sys.argv[1], *(sys.argv[2:3]))
